@@ -389,19 +389,26 @@ def gen_reopen(env):
 def gen_threads(rng, count):
     """LAST_ERROR is per thread: the same child makes calls on two threads (`t2:` prefix); a
     failing call on one thread must not show up in, or disturb, the other thread's last error.
-    Evaluated by the oracle only (the model is single-threaded)."""
-    fails = ["tlinfo 0 99 8", "tlclose 9", "read 0 100000 4", "write 0 0 00", "tlifid 0 7 64", "tlopenif 0 bad 4", "init", "tlinfo 0 0 1"]
-    oks = ["tlinfo 0 0 64", "tlnum 0", "read 0 1028 4", "ifnum 1"]
+    Evaluated by the oracle AND compared with the multi-thread model (Model/GenTLThreads.lean: one
+    stored error per thread id, `t2:` = thread 1; theorems thread_isolation_step,
+    thread_last_error_tracks_own_history, other_threads_cannot_change_what_is_retrieved)."""
+    fails = ["tlinfo 0 99 8", "tlclose 9", "read 0 100000 4", "write 0 0 00", "tlifid 0 7 64", "tlopenif 0 bad 4", "init", "tlinfo 0 0 1",
+             "writes 0 2 1028 00000000 1030 01010101", "reads 0 2 1028 4 100000 4", "write 1 4 01000000", "ifdevid 1 0 16"]
+    oks = ["tlinfo 0 0 64", "tlnum 0", "read 0 1028 4", "ifnum 1", "writes 0 1 1028 00000000", "closelib ; init"]
     seqs = [
         OPEN + ["tlinfo 0 99 8", "t2:lasterr 160", "lasterr 160", "t2:tlclose 9", "lasterr 160", "t2:lasterr 160",
                 "t2:lasterr 4", "t2:lasterr 160", "lasterr null:0"],
         ["t2:tlnum 9", "tlopen 0", "init", "t2:lasterr 160", "lasterr 160"],
+        # a refusal outside the init window is stored per thread and survives the re-initialisation
+        OPEN + ["tlclose 9", "t2:closelib", "t2:tlnum 0", "lasterr 160", "t2:lasterr 160", "init", "lasterr 160", "t2:lasterr 160"],
+        OPEN + ["t2:write 0 1030 01010101", "closelib", "tlnum 0", "t2:init", "lasterr 160", "t2:lasterr 160", "read 0 1028 8"],
     ]
     for _ in range(count):
         ops = list(OPEN)
         for _ in range(10):
             op = rng.pick(fails) if rng.chance(1, 2) else rng.pick(oks) if rng.chance(1, 3) else rng.pick(["lasterr 160", "lasterr null:0", "lasterr 3"])
-            ops.append(("t2:" if rng.chance(1, 2) else "") + op)
+            th = "t2:" if rng.chance(1, 2) else ""
+            ops += [th + x for x in op.split(" ; ")]      # "closelib ; init": both by the same thread
         seqs.append(ops + ["lasterr 160", "t2:lasterr 160"])
     return seqs
 
@@ -664,6 +671,68 @@ def gen_stacked(rng, slot, regs, size, count, readback):
                             np_r + "reads %d %d %s" % (slot, k, " ".join(ents_r)),
                             np_r + "writes %d %d %s" % (slot, k, " ".join(ents_w))] + readback + ["lasterr 160"])
     return seqs
+
+
+def gen_stacked_honest(rng, regs, size, count):
+    """honest entry lists, biased towards writable registers and zero data so that prefixes of
+    several entries succeed before one fails"""
+    bs = [b for b in boundaries(regs, size) if b <= size + 8]
+    writable = [a for (a, _l, acc) in regs if "W" in acc]
+    out = []
+    for _ in range(count):
+        ents = []
+        for _ in range(1 + rng.below(4)):
+            if writable and rng.chance(3, 5):
+                a, n = rng.pick(writable) + rng.below(3), rng.pick([1, 2, 4])
+            else:
+                a, n = rng.pick(bs), rng.pick([0, 1, 2, 4, 8])
+            ents.append((a, n, bytes(n) if rng.chance(2, 3) else rng.bytes(n)))
+        out.append(ents)
+    return out
+
+
+def stacked_vs_singles(rep, orc, pool, stage, kind, slot, lists, readback):
+    """write_stacked_is_sequence_of_singles / read_stacked_is_sequence_of_singles, checked on the
+    implementation's own outputs: the stacked call is made, then — in a fresh process — the single
+    calls up to and including the first failing entry; return code, *piNumEntries, every entry
+    buffer, both register maps and the last error must agree.  (Both runs also go to the model.)"""
+    tail = readback + ["lasterr 160"]
+    for verb, single in (("writes", "write"), ("reads", "read")):
+        def arg(e):
+            return hexs(e[2]) if verb == "writes" else str(e[1])
+        seq_a = [OPEN + ["%s %d %d %s" % (verb, slot, len(e), " ".join("%d %s" % (x[0], arg(x)) for x in e))] + tail
+                 for e in lists]
+        res_a = pool.run(seq_a)
+        evaluate(rep, orc, stage, seq_a, res_a)
+        seq_b = []
+        for e, r in zip(lists, res_a):
+            w = r[len(OPEN)]
+            m = len(e) if w.split()[0] == "0" else int(field(w, "k")) + 1
+            seq_b.append(OPEN + ["%s %d %d %s" % (single, slot, x[0], arg(x)) for x in e[:m]] + tail)
+        res_b = pool.run(seq_b)
+        evaluate(rep, orc, stage, seq_b, res_b)
+        for e, a, ra, b, rb in zip(lists, seq_a, res_a, seq_b, res_b):
+            if any(is_crash(x) for x in ra + rb) or len(ra) != len(a) or len(rb) != len(b):
+                continue    # a crash is reported by the oracle
+            w = ra[len(OPEN)]
+            code, k = w.split()[0], int(field(w, "k"))
+            singles = rb[len(OPEN):len(rb) - len(tail)]
+            ok = k <= len(singles) and all(x.split()[0] == "0" for x in singles[:k])
+            if code == "0":
+                ok = ok and k == len(e) == len(singles)
+            else:
+                ok = ok and len(singles) == k + 1 and singles[k].split()[0] == code
+            ok = ok and ra[-len(tail):] == rb[-len(tail):]
+            if ok and verb == "reads" and len(e):
+                got = field(w, "b").split(",")
+                ok = len(got) == len(e) and all(field(singles[i], "b") == got[i] for i in range(len(singles)))
+            rep.count("stacked_vs_singles_" + verb)
+            if code != "0" and k > 0:
+                rep.count("stacked_vs_singles_failure_after_progress")
+            if not ok:
+                rep.violation({"oracle": "stacked_is_sequence_of_singles", "op": verb, "module": kind},
+                              "%s: stacked %r -> %r, singles %r -> %r" % (verb, a[len(OPEN)], ra[len(OPEN):], b[len(OPEN):], rb[len(OPEN):]),
+                              {"ops": a, "ops_singles": b})
 
 
 def gen_random(rng, count, env):
@@ -1015,6 +1084,8 @@ def main():
             rep.count("port_write_probes_" + kind, len(seqs))
             seqs = gen_stacked(rng, slot, regs, size, 1500 if thorough else 300, readback)
             evaluate(rep, orc, label + "port-stacked-" + kind, seqs, pool.run(seqs))
+            stacked_vs_singles(rep, orc, pool, label + "stacked-vs-singles-" + kind, kind, slot,
+                               gen_stacked_honest(rng, regs, size, 600 if thorough else 150), readback)
         # interface port with the interface closed, NULL handle, stale-event interplay
         full = ["read 0 0 %d" % env["sys"][0], "read 1 %d %d" % (env["if_wo"], env["if"][0] - env["if_wo"])]
         extra = [
@@ -1030,7 +1101,7 @@ def main():
         seqs = gen_reopen(env)
         evaluate(rep, orc, label + "memory-across-reopen", seqs, pool.run(seqs, chunk=4))
         seqs = gen_threads(rng, 400 if thorough else 100)
-        evaluate(rep, orc, label + "two-threads", seqs, pool.run(seqs, chunk=8), model=False)
+        evaluate(rep, orc, label + "two-threads", seqs, pool.run(seqs, chunk=8))
 
     sweeps(pool, "", rng)
     cross_checks(rep, orc, env)
